@@ -167,10 +167,11 @@ fn exec_list_dyn(keyed: bool, evs: &[&str]) -> (String, Option<String>, bool) {
             let k = it.0.to_string();
             View::from_dynamic(move || {
                 let (ka, kb) = (k.clone(), k.clone());
-                if toggle.get() % 2 == 0 {
-                    view! { li(data-k=ka) { "even" } }
-                } else {
-                    view! { b(data-k=ka) { "odd" } i(data-k=kb) }
+                // three shapes: one node, two nodes, and NOTHING (an item can be created empty and filled later)
+                match toggle.get() % 3 {
+                    0 => view! { li(data-k=ka) { "even" } },
+                    1 => view! { b(data-k=ka) { "odd" } i(data-k=kb) },
+                    _ => View::new(),
                 }
             })
         };
@@ -203,7 +204,7 @@ fn exec_list_dyn(keyed: bool, evs: &[&str]) -> (String, Option<String>, bool) {
         let obs = parts.join(",");
         // oracle: what a fresh render of (list, toggle) looks like
         let mut want = vec!["Tpre".to_string(), "M".to_string()];
-        for it in &cur_list { want.push("M".into()); if cur_t % 2 == 0 { want.push(format!("li{}", it.0)); } else { want.push(format!("b{}", it.0)); want.push(format!("i{}", it.0)); } want.push("M".into()); }
+        for it in &cur_list { want.push("M".into()); match cur_t % 3 { 0 => want.push(format!("li{}", it.0)), 1 => { want.push(format!("b{}", it.0)); want.push(format!("i{}", it.0)); } _ => {} } want.push("M".into()); }
         want.push("M".into()); want.push("Tpost".into());
         let want = want.join(",");
         if obs != want { verdict.get_or_insert(format!("[dom-list-stale-item] after event {e}: the list region is `{obs}`, a fresh render of the current state gives `{want}`")); }
@@ -262,6 +263,11 @@ pub fn generate(args: &Args) -> Vec<String> {
             }
         }
     }
+    // items created EMPTY, filled later, then retained / moved by list updates
+    for fam in ["t2;l1.0,2.0;t0;l1.0,2.0,3.0;t1;l2.0,1.0;t2;l2.0;t0", "l1.0;t5;l1.0,2.0;t3;l2.0,1.0;l1.0", "t2;l3.0;t1;l3.0,4.0;l4.0,3.0;t2;l3.0;t0;l3.0,5.0"] {
+        l.push(format!("dom keyeddyn {fam}"));
+        l.push(format!("dom indexeddyn {fam}"));
+    }
     // chains of list updates through the real Keyed / Indexed components
     let n = if thorough { 60_000 } else { 4_000 };
     for i in 0..n {
@@ -277,7 +283,7 @@ pub fn generate(args: &Args) -> Vec<String> {
         // the same chain with item views that are dynamic at their top level, toggled in between
         if i % 4 == 0 && !dup {
             let mut evs: Vec<String> = vec![];
-            for c in &chain { evs.push(format!("l{c}")); if rng.chance(1, 2) { evs.push(format!("t{}", rng.below(4))); } }
+            for c in &chain { evs.push(format!("l{c}")); if rng.chance(1, 2) { evs.push(format!("t{}", rng.below(6))); } }
             l.push(format!("dom {} {}", if i % 8 == 0 { "indexeddyn" } else { "keyeddyn" }, evs.join(";")));
         }
     }
